@@ -56,9 +56,10 @@ let parse_files () : file list =
 
 let parse_run () : cli_run =
   let txfile = match next () with "none" -> false | "file" -> true | s -> failwith ("txmode " ^ s) in
+  let order = match next () with "linear" -> Linear | "linear-skip" -> LinearSkip | "non-linear" -> NonLinear | s -> failwith ("order " ^ s) in
   let faults = match next () with "-" -> [] | s -> Stdlib.List.init (String.length s) (fun i -> s.[i] = '1') in
   let files = parse_files () in
-  { cr_txfile = txfile; cr_dir = files; cr_faults = faults }
+  { cr_txfile = txfile; cr_order = order; cr_dir = files; cr_faults = faults }
 
 let () =
   (try
